@@ -145,7 +145,10 @@ def _check_body(ctx, res) -> None:
     except fold.Unfoldable as e:
         raise AnalysisError(f"string/comment pattern not foldable: {e}")
     # real_code's scanner must be built from these two
-    strv = idx.module_assigns.get("rope.base.simplify", {}).get("_str")
+    # the compiled pattern ignored_regions scans with: the module-level name whose `.finditer` it calls (whatever the name is)
+    igr = idx.need_func("rope.base.simplify.ignored_regions")
+    scan_names = [c.func.value.id for c in calls_in(igr.node) if isinstance(c.func, ast.Attribute) and c.func.attr == "finditer" and isinstance(c.func.value, ast.Name)]
+    strv = idx.module_assigns.get("rope.base.simplify", {}).get(scan_names[0]) if scan_names else None
     used = {call_name(c) for c in ast.walk(strv) if isinstance(c, ast.Call)} if strv is not None else set()
     if not {"get_comment_pattern", "get_any_string_pattern"} <= used:
         raise AnalysisError("anchor=simplify._str is no longer built from get_comment_pattern | get_any_string_pattern")
@@ -202,7 +205,8 @@ def _check_body(ctx, res) -> None:
         for x in ast.walk(u.tree):
             if isinstance(x, ast.Assign) and isinstance(x.value, ast.Call) and call_name(x.value) == "compile" and x.value.args \
                     and isinstance(x.value.args[0], ast.Constant) and isinstance(x.value.args[0].value, str) \
-                    and isinstance(x.targets[0], ast.Name) and x.targets[0].id in ("_parens", "_main_tokens"):
+                    and isinstance(x.targets[0], ast.Name) and any(ch in x.value.args[0].value for ch in "([{"):
+                # (a compiled constant pattern that mentions an opening bracket: `_parens`, `_main_tokens` on the pinned tree)
                 scanners.append((u, x, x.value.args[0].value))
     if len(scanners) < 2:
         raise AnalysisError("anchor=simplify._parens / _CustomGenerator._main_tokens scanner patterns not found")
